@@ -53,8 +53,19 @@ def run(ctx):
             v = pool[0]
             samples.append(dict(version_class=cname, version=v.string, next=[str(v.next_patch()), str(v.next_minor()), str(v.next_major())]))
     # ---- caret / tilde / pessimistic shorthand over fully specified versions
-    for v in gens.near_pool(r, vs.SemverVersion, n):
-        t = str(v)
+    shorthand = [(v, str(v)) for v in gens.near_pool(r, vs.SemverVersion, n)]
+    # short and long segment counts as they are written (a fourth and later segment is kept as build metadata): every
+    # spelling of one to three segments over a few numbers, and a sample of the four- to six-segment ones
+    import itertools
+    dotted = [".".join(c) for k in (1, 2, 3) for c in itertools.product(["0", "1", "9", "10"], repeat=k)]
+    for k in (4, 5, 6):
+        dotted += [".".join(r.choice(["0", "1", "2", "9", "10", "99"]) for _ in range(k)) for _ in range(40 if ctx.tier == "quick" else 600)]
+    for s_ in dotted:
+        try:
+            shorthand.append((vs.SemverVersion(s_), s_))
+        except Exception:  # noqa
+            pass
+    for v, t in shorthand:
         for prefix, f in (("^", univers_semver.get_caret_constraints), ("~", univers_semver.get_tilde_constraints), ("~>", univers_semver.get_pessimistic_constraints)):
             evals += 1
             try:
